@@ -53,6 +53,9 @@ func stressRR(cfg M, tr *Trace, seed int64) {
 	for round := 0; round < rounds; round++ {
 		rng := rand.New(rand.NewSource(seed*1000 + int64(round)))
 		sub := M{"subject": "rr", "table": round}
+		if round%2 == 1 && boolOr(cfg, "admin", false) {
+			sub["sticky"] = "hash" // requests then read the pool (Servers) on their own path
+		}
 		s := newRRSubject(sub, seed)
 		tr.Emit(M{"e": "Reset", "scn": sprintf("stress-%d", round), "cfg": M{"subject": "rr", "sticky": ""}})
 		ws := list(cfg, "weights")
@@ -81,6 +84,9 @@ func stressRR(cfg M, tr *Trace, seed int64) {
 				for i := 0; i < K; i++ {
 					if r.Intn(4) == 0 {
 						req := httptest.NewRequest(http.MethodGet, "http://front/", nil)
+						if s.sticky != nil && r.Intn(2) == 0 {
+							req.AddCookie(&http.Cookie{Name: "oxysession", Value: "deadbeef"})
+						}
 						s.rr.ServeHTTP(httptest.NewRecorder(), req)
 					} else {
 						s.rr.NextServer()
